@@ -14,6 +14,7 @@
 """
 import json
 import os
+import re
 import shutil
 import random
 import sys
@@ -71,13 +72,20 @@ def observe(handler, path):
     what, node = "none", "none"
     if 20 <= st <= 29:
         text = body if isinstance(body, str) else (body or b"").decode("utf-8", "replace")
-        if text.startswith("# Index of "):
+        if text.startswith("# Index of ") or (not found and any(ln.startswith("=>") for ln in text.split("\n"))):
             what = "listing"
             names = set()
             universe = ["a", "g", "s p", "L1", "index.gmi", "f", "s", "sec", "root", "root2", "out"]
             for ln in text.split("\n"):
-                if ln.startswith("=> ") and not ln.endswith(" .."):
-                    hit = [u for u in universe if ln.endswith(" %s/" % u) or (" %s (" % u) in ln]
+                if ln.startswith("=>") and not ln.rstrip().endswith(" .."):
+                    # the entry a link line stands for, whatever the layout: "=> TARGET LABEL" with the name at the end of the
+                    # target (raw or percent-encoded), or as the label with an optional "/" or " (size)" after it
+                    rest = ln[2:].strip()
+                    tgt = rest.split(None, 1)[0] if rest else ""
+                    last = urllib.parse.unquote(tgt.rstrip("/").rsplit("/", 1)[-1])
+                    label = re.sub(r"\s*\([^()]*\)\s*$", "", rest).rstrip("/ ")
+                    hit = [u for u in universe if ln.endswith(" %s/" % u) or (" %s (" % u) in ln or last == u
+                           or label.endswith(" " + u) or label.endswith("/" + u) or label.endswith("/" + urllib.parse.quote(u))]
                     names.add(max(hit, key=len) if hit else "?" + ln)
             node = "unknown-dir"
             for d, must in DIR_ENTRIES.items():
